@@ -85,6 +85,9 @@ class FakeSocket:
                 return
             if e == "eof":
                 return "eof"
+            cb = getattr(self.k, "on_fault", None)
+            if cb is not None:
+                cb(self.name, op, e)
             raise OSError(e, "injected %s" % errno.errorcode.get(e, e))
 
     # --- kernel readiness ---
@@ -285,6 +288,7 @@ class FakeOS:
         if o is None:
             raise OSError(errno.EBADF, "write on closed pipe")
         o.pipe["n"] += len(data)
+        _vo("pulled", "trigger")     # the caller may be pre-empted between the system call and what it does next
         return len(data)
 
     def read(self, fd, n):
@@ -296,6 +300,7 @@ class FakeOS:
             raise OSError(errno.EWOULDBLOCK, "would block")
         k = min(n, o.pipe["n"])
         o.pipe["n"] -= k
+        _vo("drained", "trigger")
         return b"x" * k
 
     def close(self, fd):
